@@ -25,6 +25,10 @@ AUTH_TRUSTED = [
     "translated from the C++ on every run: BasicAuthMiddleware::verify and BasicAuthMiddleware::process of basicauthmiddleware.cpp in the vocabulary of Qhttp/Model/AxPrim.lean (a QString is its UTF-8 encoding, QString::fromUtf8(b).toUtf8() is an arbitrary function `round`, QMap::contains/value are the model's last-registration lookup, Parser::split is what QhttpBridge.Parser.split_eq proves of the translated parser, QString::arg replaces every %1; trusted); bridge theorems QhttpBridge.Auth prove that process admits exactly when BasicAuth.verdict does and otherwise sets the WWW-Authenticate challenge with the realm and writes 401, for every table whose entries `round` leaves alone (they were registered as QStrings)",
 ]
 
+SLOT_TRUSTED = [
+    "translated from the C++ on every run: QObjectHandler::process of qobjecthandler.cpp in the vocabulary of Qhttp/Model/SxPrim.lean (QMap::contains/value are the model's last-registration lookup, socket->bytesAvailable()/contentLength() what QhttpBridge.Sock proves of the translated socket.cpp, d->invokeSlot and the connect() of the deferred call recorded as actions; trusted); bridge theorems QhttpBridge.Slot prove that process takes the decision of SlotHandler.onHp: 404 / invoke now / invoke at end-of-body, for the registration stored last under exactly the routed name; invokeSlot itself (Qt's meta-object call) is modelled, not translated",
+]
+
 PARSER_TRUSTED = [
     "translated from the C++ on every run (tools/cxx2lean.py): Parser::split, parseHeaderList, parseHeaders, parseRequestHeaders, parseResponseHeaders of parser.cpp as pure functions (reference parameters returned, `fuel` bounding the loop of split) in the vocabulary Cxx.indexOfFrom / mid / size / count / nth / takeFirst of Qhttp/Model/CxxPrim.lean (trusted); bridge theorems QhttpBridge.Parser prove each equal to the model's function for every input and every fuel above the length of the data (split: non-empty delimiter, maxSplit >= 0 - every call site), and that the vocabulary entry Cxx.parseRequestHeaders used by the translated socket.cpp is the translated parser function (cxx_parseRequestHeaders); a function outside the translated subset is replaced by the model's (listed in QhttpGen.Parser.untranslated) and then rests on the scenario comparison only",
 ]
@@ -81,7 +85,7 @@ PROPS = {
             "trusted": ["modelled, not verified: QBuffer/QFile read/seek/pos/atEnd, QIODevice::write refusing a negative length, QTimer::singleShot(0) = one pending call per event-loop turn; the harness devices (MemSrc, SeqSrc, LogDest) stand for QFile / sockets"],
             "rule": "exhaustive: sources of length <= L, every block size 1..len+1, no range and every (from,to) in [0,len+1] x [-1,len+1], left to run; stop() at every turn; then random contents (to 200 000 bytes), ranges, injected open/seek/read/write failures, sequential sources delivered in arbitrary pieces"},
     "C15": {"count": {"quick": 2000, "thorough": 30000},
-            "trusted": SOCK_TRUSTED + ["modelled, not verified: QMap<QString,Method> insert/contains/value, QMetaObject slot lookup and signature check (a registration is `good` or not)"],
+            "trusted": SOCK_TRUSTED + SLOT_TRUSTED + ["modelled, not verified: QMap<QString,Method> insert/contains/value, QMetaObject slot lookup and signature check (a registration is `good` or not)"],
             "rule": "registries of <= 5 names (prefixes of each other, empty name, case variants, non-ASCII) through the old-style, pointer-to-member, functor, missing-slot and wrong-signature forms, with/without readAll; bodies of 0..16390 bytes, complete or truncated, in every kind of segmentation; harness slots record bytesAvailable()"},
     "C16": {"count": {"quick": 400, "thorough": 6000},
             "trusted": ["translated from the C++ on every run (tools/cxx2lean.py, clang-14 AST): Range::from/to/length/isValid/dataSize and the numeric constructor; bridge theorems QhttpBridge.Range prove them equal to the hand model",
@@ -163,6 +167,7 @@ PARSER_ALL = ["QhttpBridge.Parser"]
 FS_ALL = ["QhttpBridge.Fs.AbsolutePath", "QhttpBridge.Fs.Process"]
 
 BRIDGE_NEEDS = {
+    "QhttpBridge.Slot": ["QObjectHandler::process"],
     "QhttpBridge.Auth": ["BasicAuthMiddleware::verify", "BasicAuthMiddleware::process"],
     "QhttpBridge.Fs.AbsolutePath": ["FilesystemHandlerPrivate::absolutePath"],
     "QhttpBridge.Fs.Process": ["FilesystemHandler::process", "FilesystemHandlerPrivate::absolutePath"],
@@ -213,5 +218,6 @@ BRIDGES = {
     "C08": ["QhttpBridge.Copier"] + RANGE_ALL + FS_ALL,
     "C07": FS_ALL,
     "C09": ["QhttpBridge.Auth"],
+    "C15": ["QhttpBridge.Slot"],
 }
 ALL_BRIDGE_MODULES = sorted({m for v in BRIDGES.values() for m in v})
